@@ -22,10 +22,12 @@ var nodes = map[string]nodeCfg{
 	"race":         {Bin: "race"},
 	"race-noclmul": {Bin: "race", Env: []string{"GODEBUG=cpu.pclmulqdq=off"}},
 	"race-noaes":   {Bin: "race", Env: []string{"GODEBUG=cpu.aes=off"}},
+	"race-purego":  {Bin: "racepurego"},
 }
 
 var binTags = map[string][]string{
-	"asm":    {"-tags", "verif"},
-	"purego": {"-tags", "verif,purego"},
-	"race":   {"-tags", "verif", "-race"},
+	"asm":        {"-tags", "verif"},
+	"purego":     {"-tags", "verif,purego"},
+	"race":       {"-tags", "verif", "-race"},
+	"racepurego": {"-tags", "verif,purego", "-race"}, // the detector does not instrument assembly: the generic code shows what assembly hides
 }
